@@ -80,11 +80,48 @@ class Sig:
         self.notes = []
 
 
+def closure_captures(facts, fb):
+    """the operands captured by closure `fb`, as expressions of its parent function (through nested closures)"""
+    parent = facts.by_did.get(fb.parent_did)
+    if parent is None:
+        return None
+    peb = ExprBuilder(parent, facts, inline=False)
+    for bi, blk in enumerate(parent.blocks):
+        for si, st in enumerate(blk["stmts"]):
+            if st["k"] == "assign" and st["rv"]["k"] == "agg" and st["rv"].get("ak") == "closure" and st["rv"].get("closure_did") == fb.did:
+                caps = [peb.operand(o, (bi, si)) for o in st["rv"]["ops"]]
+                if parent.kind == "closure":
+                    caps = [in_parent_terms(facts, parent, c) for c in caps]
+                return caps
+    return None
+
+
+def in_parent_terms(facts, fb, e):
+    """rewrite an expression of closure `fb` so that captured variables read as the enclosing function's expressions"""
+    caps = closure_captures(facts, fb) if fb.kind == "closure" else None
+    if not caps:
+        return e
+    from .flow import _replace
+
+    def sub(x):
+        if x[0] == "field" and x[1] in (("param", 1), ("deref", ("param", 1))) and str(x[2]).isdigit() and int(x[2]) < len(caps):
+            return caps[int(x[2])]
+        if x[0] == "deref" and isinstance(x[1], tuple) and x[1] and x[1][0] == "ref":
+            return x[1][1]
+        return None
+    return _replace(e, sub)
+
+
 def method_sig(facts, body, trait_path):
     s = Sig()
     for fb in family_bodies(facts, body):
         live = live_blocks(fb)
         eb = ExprBuilder(fb, facts, inline=False)
+        if fb.kind == "closure":
+            class _EB:                      # operands of a closure in the terms of the method that wrote it
+                def operand(self_, o, loc, _eb=eb, _fb=fb):
+                    return in_parent_terms(facts, _fb, _eb.operand(o, loc))
+            eb = _EB()
         for bi, blk in enumerate(fb.blocks):
             if blk["cleanup"]:
                 continue
@@ -102,6 +139,17 @@ def method_sig(facts, body, trait_path):
             fn = callee(t)
             if fn is None:
                 continue
+            if bi in live:
+                # conversion functions handed to a combinator as values: `.map(f32::from_bits)`
+                for a in t["args"]:
+                    if a["k"] == "const" and a.get("fn"):
+                        ap = (a["fn"].get("res") or a["fn"])["path"]
+                        m = CONV.match(ap)
+                        if m:
+                            s.transforms.add("%s%s::%s_%s_bytes" % (m.group(1), m.group(2), m.group(3), m.group(4)))
+                        m = BITS.match(ap)
+                        if m:
+                            s.transforms.add("f%s::%s_bits" % (m.group(2), m.group(3)))
             res = fn.get("res") or fn
             path = res["path"]
             full = res["full"]
